@@ -109,10 +109,18 @@ static void gen_addr(Node *node) {
 #ifdef CHIBICC_VERIF
         verif_call_probe();
 #endif
+        // __tls_get_addr is an ordinary function: the stack must be
+        // 16-byte aligned at the call, also when an odd number of
+        // temporaries is pushed.
+        bool pad = depth % 2;
+        if (pad)
+          println("  sub $8, %%rsp");
         println("  data16 lea %s@tlsgd(%%rip), %%rdi", node->var->name);
         println("  .value 0x6666");
         println("  rex64");
         println("  call __tls_get_addr@PLT");
+        if (pad)
+          println("  add $8, %%rsp");
         return;
       }
 
